@@ -48,7 +48,12 @@ func noCheck(bs []harness.BlockSpec) []harness.BlockSpec {
 
 // runPlain executes blocks on a fresh run and returns the transcript.
 func runPlain(w *harness.World, blocks []harness.BlockSpec, digest bool) ([]*harness.BlockResult, error) {
-	x, err := harness.StartRun(w)
+	return runPlainAs(w, harness.IdentityOf(w.Vals[0]), blocks, digest)
+}
+
+// runPlainAs is runPlain with an explicit node identity.
+func runPlainAs(w *harness.World, id harness.NodeIdentity, blocks []harness.BlockSpec, digest bool) ([]*harness.BlockResult, error) {
+	x, err := harness.StartRunAs(w, id)
 	if err != nil {
 		return nil, err
 	}
